@@ -244,7 +244,8 @@ CHECKS["C17"] = dict(
     assumptions=VT[:1] + ["before initialisation an error for the scrape/request is accepted (statement), and the expected RA has no source link-layer address",
                             "wildcard configurations after initialisation depend on the sandbox's loopback addresses; if initialisation fails there the case is skipped and counted"],
     parts=[dict(name="life", pkg="internal/corerad", test="TestVerifC17", shards=S16, env={"VERIF_PART": "life"}, **DET),
-           dict(name="race", pkg="internal/corerad", test="TestVerifC17", race=True, shards=S8, gomaxprocs=4, env={"VERIF_PART": "race"})],
+           dict(name="race", pkg="internal/corerad", test="TestVerifC17", race=True, shards=S8, gomaxprocs=4, env={"VERIF_PART": "race"}),
+           dict(name="lock", pkg="internal/corerad", test="TestVerifC17Lock", race=True, shards=S8, gomaxprocs=4, timeout_s={"quick": 600, "thorough": 3600})],
 )
 NETNS = ["$VERIF/tools/netns.sh"]
 CHECKS["C11"]["parts"].append(dict(name="netns", pkg="internal/system", test="TestVerifC11Netns", shards={"quick": 4, "thorough": 8}, wrap=NETNS, gogc_off=True,
